@@ -76,6 +76,7 @@ def parseOp (rank : Nat) (tok : String) : Op :=
   | ["keys"] => .keys
   | ["dkeys"] => .dkeys
   | ["len"] => .len
+  | ["resume", k] => o (k.toNat?.map .resume)
   | _ => .bad
 
 def opName (tok : String) : String := (tok.splitOn ":").headD "?"
@@ -85,6 +86,27 @@ def splitSteps (toks : List String) : List (List String) :=
   let r := toks.foldl (fun (acc : List String × List (List String)) t =>
     if t == "|" then ([], acc.1.reverse :: acc.2) else (t :: acc.1, acc.2)) ([], [])
   (r.1.reverse :: r.2).reverse
+
+/-- `size_hint()` contract: the implementation prints its hint as `sh:<lo>:<hi|N>`, the model prints the number of
+    remaining items as `sh=<n>`.  The hint is not compared with the model; it only has to bracket the remaining
+    length: `lo ≤ n` and `n ≤ hi` when `hi` is given.  A hint that keeps the contract is replaced by the model's token,
+    a hint that breaks it (or cannot be parsed) is left as it is and so shows up as a token-level disagreement. -/
+def hintOk (m x : String) : Bool :=
+  match (m.drop 3).toString.toNat?, (x.drop 3).toString.splitOn ":" with
+  | some n, [lo, hi] =>
+    match lo.toNat? with
+    | none => false
+    | some lo => lo ≤ n && (hi == "N" || (match hi.toNat? with | some h => n ≤ h | none => false))
+  | _, _ => false
+
+def normHints : List String → List String → List String
+  | m :: ms, x :: xs =>
+    (if m.startsWith "sh=" && x.startsWith "sh:" && hintOk m x then m else x) :: normHints ms xs
+  | _, xs => xs
+
+def normTrace : List (List String) → List (List String) → List (List String)
+  | m :: ms, x :: xs => normHints m x :: normTrace ms xs
+  | _, xs => xs
 
 /-- first step where two traces differ: (index, model token, impl token) -/
 def firstDiff (model impl : List (List String)) : Option (Nat × String × String) :=
@@ -139,13 +161,13 @@ def processLine (prop : String) (line : String) : String := Id.run do
       | none => return s!"{id} model-unsupported"
       | some model =>
         let impl := if progToks.isEmpty then [] else splitSteps rhs
-        let corr := match firstDiff model impl with
+        let corr := match firstDiff model (normTrace model impl) with
           | none => "ok"
           | some (i, m, x) => s!"class:step{i}.{names.getD i "?"}:{m}/{x}"
         let spec := runSpec labelled newtype dims prog
-        let fails := oracleFails spec impl names
+        let fails := oracleFails spec (normTrace spec impl) names
         let relevant := if prop == "C18" then
-            names.any (fun n => n == "indexes" || n == "keys" || n == "dkeys")
+            names.any (fun n => n == "indexes" || n == "keys" || n == "dkeys" || n == "resume")
           else true
         let orc := if !relevant || progToks.isEmpty then "skip"
           else if fails.isEmpty then "pass" else "fail:" ++ ",".intercalate (fails.take 4)
